@@ -16,7 +16,7 @@ Section Low.
     l_fail : forall A e, P (@fail A e);
     l_internal : forall A k, P (@internal_ A k);
     l_fuel : forall A, P (@fuel_ A);
-    l_emit : forall a, P (emit a);
+    l_emit : forall a, (match a with Rd _ => False | _ => True end) -> P (emit a);
     l_read1 : P read1;
     l_consume : forall n, P (consume n);
     l_set_sc : forall i c, P (set_sc i c);
@@ -34,20 +34,42 @@ Section Low.
     apply (l_bind L); [apply (l_read1 L)|]. intros b. apply (l_bind L); [apply IH|]. intros bs. apply (l_ret L).
   Qed.
 
-  Lemma L_bp_walk ids p size : P (bp_walk ids p size).
+  Lemma L_bump_all ids n : P (bump_all ids n).
   Proof.
-    induction ids as [|i r IH]; cbn [bp_walk]; [apply (l_ret L)|].
+    induction ids as [|i r IH]; cbn [bump_all]; [apply (l_ret L)|].
     apply (l_bind L); [apply (l_get L)|]. intros s.
-    destruct (sc_obs (get_sc s i)).
-    - apply (l_bind L); [apply (l_remove_lst L)|]. intros _. apply IH.
-    - destruct (exceeds (get_sc s i) size).
-      + apply (l_bind L); [apply (l_set_sc L)|]. intros _.
-        apply (l_bind L); [apply (l_consume L)|]. intros _. apply (l_fail L).
-      + apply (l_bind L); [apply (l_set_sc L)|]. intros _. apply IH.
+    apply (l_bind L); [apply (l_set_sc L)|]. intros _. apply IH.
   Qed.
 
+  Lemma L_retire_all ids : P (retire_all ids).
+  Proof.
+    induction ids as [|i r IH]; cbn [retire_all]; [apply (l_ret L)|].
+    apply (l_bind L); [apply (l_get L)|]. intros s.
+    apply (l_bind L); [apply (l_set_sc L)|]. intros _. apply IH.
+  Qed.
+
+  Lemma L_bump_others ids self n : P (bump_others ids self n).
+  Proof.
+    induction ids as [|i r IH]; cbn [bump_others]; [apply (l_ret L)|].
+    apply (l_bind L); [apply (l_get L)|]. intros s.
+    apply (l_bind L); [|intros _; apply IH].
+    destruct (Nat.eqb i self || sc_obs (get_sc s i)); [apply (l_ret L)|apply (l_set_sc L)].
+  Qed.
+
+  Lemma L_purge : P purge.
+  Proof. unfold purge. apply (l_bind L); [apply (l_get L)|]. intros s. apply (l_set_lst L). Qed.
+
   Lemma L_bytes_parsed p size : P (bytes_parsed p size).
-  Proof. unfold bytes_parsed. apply (l_bind L); [apply (l_get L)|]. intros s. apply L_bp_walk. Qed.
+  Proof.
+    unfold bytes_parsed. apply (l_bind L); [apply L_purge|]. intros _.
+    apply (l_bind L); [apply (l_get L)|]. intros s.
+    destruct (find_violated s (lst s) size []) as [[[[before i] by_] after]|]; [|apply L_bump_all].
+    apply (l_bind L); [apply L_bump_all|]. intros _.
+    apply (l_bind L); [apply L_retire_all|]. intros _.
+    apply (l_bind L); [apply (l_set_lst L)|]. intros _.
+    apply (l_bind L); [apply (l_set_sc L)|]. intros _.
+    apply (l_bind L); [apply (l_consume L)|]. intros _. apply (l_fail L).
+  Qed.
 
   Lemma L_set_constraint abort i p n : P (set_constraint abort i p n).
   Proof.
@@ -56,17 +78,19 @@ Section Low.
     apply (l_bind L); [apply (l_set_sc L)|]. intros _.
     apply (l_bind L); [apply (l_get L)|]. intros s'.
     destruct (anticipate _ _ _ _) as [[ci b]|]; [|apply (l_ret L)].
-    destruct abort; [apply (l_fail L)|apply (l_emit L)].
+    destruct abort; [apply (l_fail L)|apply (l_emit L); exact I].
   Qed.
 
   Lemma L_assert_done abort i : P (assert_done abort i).
   Proof.
     unfold assert_done. apply (l_bind L); [apply (l_get L)|]. intros s.
     destruct (sc_max (get_sc s i)); [|apply (l_internal L)].
+    destruct (sc_obs (get_sc s i)); [apply (l_ret L)|].
     apply (l_bind L); [apply (l_set_sc L)|]. intros _.
     destruct (_ =? _); [apply (l_ret L)|].
     destruct abort; [apply (l_fail L)|].
-    apply (l_bind L); [apply (l_emit L)|]. intros _. apply (l_consume L).
+    apply (l_bind L); [apply (l_emit L); exact I|]. intros _.
+    apply (l_bind L); [apply L_bump_others|]. intros _. apply (l_consume L).
   Qed.
 
   Lemma L_dec_prim abort p pa : P (dec_prim abort p pa).
@@ -74,10 +98,10 @@ Section Low.
     unfold dec_prim. apply (l_bind L); [apply L_bytes_parsed|]. intros _.
     apply (l_bind L); [apply L_readn|]. intros bs.
     destruct (valid p _).
-    - apply (l_bind L); [apply (l_emit L)|]. intros _. apply (l_ret L).
+    - apply (l_bind L); [apply (l_emit L); exact I|]. intros _. apply (l_ret L).
     - destruct abort; [apply (l_fail L)|].
-      apply (l_bind L); [apply (l_emit L)|]. intros _.
-      apply (l_bind L); [apply (l_emit L)|]. intros _. apply (l_ret L).
+      apply (l_bind L); [apply (l_emit L); exact I|]. intros _.
+      apply (l_bind L); [apply (l_emit L); exact I|]. intros _. apply (l_ret L).
   Qed.
 
   Theorem lclosed_closed abort : closed abort (@P).
@@ -89,7 +113,7 @@ Section Low.
     - apply (l_fail L).
     - apply (l_internal L).
     - apply (l_fuel L).
-    - apply (l_emit L).
+    - apply (l_emit L). exact I.
     - apply L_dec_prim.
     - apply (l_new_sc L).
     - apply L_set_constraint.
@@ -97,6 +121,7 @@ Section Low.
     - apply (l_set_lst L).
     - apply L_assert_done.
     - apply (l_catch L); assumption.
+    - destruct abort; [apply (l_fail L)|apply (l_emit L); exact I].
   Qed.
 
   Theorem L_dec_root T abort r : P (dec_root T abort r).
